@@ -403,6 +403,44 @@ func exec(c proto.Case, o *proto.Out) []string {
 			}
 			args := messages.OnResponse{Headers: map[string]string{}}
 			outs[i] = fmtSpoe(routing.VerifSPOERespActions(args, list))
+		case w[0] == "reqpolicy" || w[0] == "resppolicy":
+			var list []any
+			errAns := ""
+			for _, n := range w[1:] {
+				obj, ok := objs[n]
+				if !ok {
+					errAns = "err:unknown-object"
+					break
+				}
+				if _, isReq := obj.(actions.ReqLunarAction); w[0] == "reqpolicy" && !isReq {
+					errAns = "err:not-request-action"
+					break
+				}
+				if _, isResp := obj.(actions.RespLunarAction); w[0] == "resppolicy" && !isResp {
+					errAns = "err:not-response-action"
+					break
+				}
+				list = append(list, obj)
+			}
+			if errAns != "" {
+				outs[i] = errAns
+				break
+			}
+			nn := 0
+			for _, a := range list {
+				o.Count("policy-" + w[0][:4] + ":" + kindOf(a))
+				if kindOf(a) != "noop" {
+					nn++
+				}
+			}
+			if nn >= 2 {
+				nontrivial = true
+			}
+			if w[0] == "reqpolicy" {
+				outs[i] = reqPolicy(list)
+			} else {
+				outs[i] = respPolicy(list)
+			}
 		case w[0] == "show" && len(w) == 2:
 			obj, ok := objs[w[1]]
 			if !ok {
@@ -537,6 +575,47 @@ func enumerateAliased(maxLen int, emit func(proto.Case)) {
 		}
 	}
 	rec()
+}
+
+// enumeratePolicy: policy-mode fold sites (runner.runOnRequest/runOnResponse through
+// runner.DispatchOnRequest/DispatchOnResponse with real remedy plugins): all sequences of length <= 5
+// over remedy-expressible actions, plus one inexpressible case.
+func enumeratePolicy(emit func(proto.Case)) {
+	fixed := " body=" + proto.Enc(fixedBody) + " h=" + proto.Enc(fixedHdrName) + "|" + proto.Enc(fixedHdrValue)
+	reqs := []string{"noop", "early status=429" + fixed, "early status=503" + fixed,
+		"modreq h=" + hA + " host=%e path=%e query=%e body=%e", "modreq h=" + hB + " host=%e path=%e query=%e body=%e"}
+	resps := []string{"noop", "modresp h=x-lunar-retry-after|1 body=%e status=0",
+		"modresp h=x-lunar-retry-after|2 body=%e status=0", "modresp h=x-lunar-retry-after|30 body=%e status=0"}
+	run := func(prefix, op string, reps []string, maxLen int) {
+		idx := make([]int, 0, maxLen)
+		id := 0
+		var rec func()
+		rec = func() {
+			var ops []string
+			line := op
+			for k, r := range idx {
+				ops = append(ops, fmt.Sprintf("obj o%d %s", k, reps[r]))
+				line += fmt.Sprintf(" o%d", k)
+			}
+			ops = append(ops, line)
+			id++
+			emit(proto.Case{ID: fmt.Sprintf("%s%d", prefix, id), Ops: ops})
+			if len(idx) == maxLen {
+				return
+			}
+			for r := range reps {
+				idx = append(idx, r)
+				rec()
+				idx = idx[:len(idx)-1]
+			}
+		}
+		rec()
+	}
+	run("pq", "reqpolicy", reqs, 5)
+	run("ps", "resppolicy", resps, 5)
+	emit(proto.Case{ID: "px1", Ops: []string{"obj a modhdr h=" + hA, "obj b modresp h=x|1 body=b status=200",
+		"obj c modresp h=x-lunar-retry-after|01 body=%e status=0", "obj d early status=429 body=e h=_",
+		"reqpolicy a", "resppolicy b", "resppolicy c", "reqpolicy d", "reqpolicy b", "resppolicy a", "reqpolicy nobody"}})
 }
 
 var keyPool = []string{"x", "a", "b", "x-lunar", "X", "a-b", "content-type", "é"}
@@ -701,6 +780,9 @@ func gen(r *prng.R, f proto.Flags, emit func(proto.Case)) {
 	enumerate("eq", reqReps, "rq", "reqstart", "reqsite", reqLen, emit)
 	enumerate("es", respReps, "rs", "respstart", "respsite", respLen, emit)
 	enumerateAliased(reqLen, emit)
+	if f.Tier == "thorough" {
+		enumeratePolicy(emit)
+	}
 	nRand *= f.Budget
 	for k := 0; k < nRand; k++ {
 		emit(genRandom(r.Fork(), fmt.Sprintf("g%d", k+1), randLen))
